@@ -461,7 +461,19 @@ func (x *Exec) quantifier(st *State, f *Term, universal bool) (*Term, error) {
 	// a body that panics counts as false
 	body = c.And(def, body)
 	if universal {
-		return c.Forall(vars, c.Implies(c.And(guard...), body)), nil
+		q := c.Forall(vars, c.Implies(c.And(guard...), body))
+		if q.Op == "forall" && sig != nil {
+			// remembered for the replay of a refuting model: the Go types of the bound variables, in order
+			if x.quantTypes == nil {
+				x.quantTypes = map[*Term][]types.Type{}
+			}
+			var ts []types.Type
+			for i := 0; i < sig.Params().Len(); i++ {
+				ts = append(ts, sig.Params().At(i).Type())
+			}
+			x.quantTypes[q] = ts
+		}
+		return q, nil
 	}
 	return c.Exists(vars, c.And(c.And(guard...), body)), nil
 }
